@@ -1,5 +1,112 @@
+/-
+  C08 — shortest-path options restrict the answer but never change it.
+
+  Every answer - whatever the target / cutoff / first_only / with_paths combination, and whichever of
+  single_source / multi_source / all_pairs produced it - is run through the same checker
+  (`checkSingleSource`, proved sound in Props/C04.lean).  Because shortest distances are unique, two accepted
+  answers for the same source agree wherever both report a node; the remaining clauses of C08 are facts about
+  walks: symmetry on undirected graphs and the triangle inequality.
+-/
+import GraphrsModel.Props.C04
 import GraphrsModel.ObsSP
 namespace Graphrs
-/-- placeholder while the framework is brought up: replaced by the property theorems -/
-theorem C08_popFringe_nil : popFringe [] = none := rfl
+
+/-- shortest distances are unique -/
+theorem C08_isDist_unique (arcs : Arcs) (s t : Nat) (d d' : Int) (h : IsDist arcs s t d) (h' : IsDist arcs s t d') : d = d' := by
+  have h1 := h.2 d' h'.1
+  have h2 := h'.2 d h.1
+  omega
+
+/-- **a restricted answer is a restriction of the unrestricted one**: if an answer to a query with options (target, cutoff, first_only,
+    with_paths) and the answer to the plain query from the same source are both accepted, every node the restricted answer reports
+    is reported by the plain answer with the same distance -/
+theorem C08_restricted_agrees (nodes : List Nat) (arcs : Arcs) (q q0 : SPQuery)
+    (ans ans0 : List (Nat × Int × List (List Nat)))
+    (hsrc : q.source = q0.source) (h0t : q0.target = none) (h0c : q0.cutoff2 = none)
+    (h : checkSingleSource nodes arcs q ans = none) (h0 : checkSingleSource nodes arcs q0 ans0 = none) :
+    ∀ r ∈ ans, ∃ r0 ∈ ans0, r0.1 = r.1 ∧ r0.2.1 = r.2.1 := by
+  intro r hr
+  have hs := (C04_check_sound_dist nodes arcs q ans h).1 r hr
+  have hs0 := C04_check_sound_dist nodes arcs q0 ans0 h0
+  have hd : IsDist arcs q0.source r.1 r.2.1 := hsrc ▸ hs.1
+  have hm := hs0.2.1 h0t r.1 r.2.1 hd (by rw [h0c]; trivial)
+  rw [List.mem_map] at hm
+  obtain ⟨r0, hr0, e⟩ := hm
+  refine ⟨r0, hr0, e, ?_⟩
+  have hd0 := (hs0.1 r0 hr0).1
+  rw [e] at hd0
+  exact C08_isDist_unique arcs _ _ _ _ hd0 hd
+
+/-- with a cutoff and no target, exactly the nodes at distance ≤ cutoff are reported -/
+theorem C08_cutoff_exact (nodes : List Nat) (arcs : Arcs) (q : SPQuery) (c : Int)
+    (ans : List (Nat × Int × List (List Nat)))
+    (ht : q.target = none) (hc : q.cutoff2 = some c) (h : checkSingleSource nodes arcs q ans = none) (t : Nat) :
+    t ∈ ans.map (·.1) ↔ ∃ x, IsDist arcs q.source t x ∧ 2 * x ≤ c := by
+  have hs := C04_check_sound_dist nodes arcs q ans h
+  constructor
+  · intro hm
+    rw [List.mem_map] at hm
+    obtain ⟨r, hr, e⟩ := hm
+    have := hs.1 r hr
+    rw [hc] at this
+    subst e
+    exact ⟨r.2.1, this.1, this.2⟩
+  · rintro ⟨x, hd, hx⟩
+    exact hs.2.1 ht t x hd (by rw [hc]; exact hx)
+
+/-- walks compose -/
+theorem C08_walk_trans (arcs : Arcs) (s t u : Nat) (a b : Int) (h1 : Walk arcs s t a) (h2 : Walk arcs t u b) :
+    Walk arcs s u (a + b) := by
+  induction h2 with
+  | nil => simpa using h1
+  | snoc hw ha ih =>
+    rename_i u v c w
+    have := Walk.snoc ih ha
+    have e : a + (c + w) = a + c + w := by omega
+    rw [e]; exact this
+
+/-- **triangle inequality** for shortest distances -/
+theorem C08_triangle (arcs : Arcs) (s t u : Nat) (a b c : Int)
+    (h1 : IsDist arcs s t a) (h2 : IsDist arcs t u b) (h3 : IsDist arcs s u c) : c ≤ a + b := by
+  exact h3.2 _ (C08_walk_trans arcs s t u a b h1.1 h2.1)
+
+/-- arcs of an undirected graph come in both directions -/
+def SymmetricArcs (arcs : Arcs) : Prop := ∀ u v c, (u, v, c) ∈ arcs → (v, u, c) ∈ arcs
+
+theorem C08_walk_reverse (arcs : Arcs) (hsym : SymmetricArcs arcs) (s t : Nat) (c : Int) (h : Walk arcs s t c) :
+    Walk arcs t s c := by
+  induction h with
+  | nil => exact Walk.nil _
+  | snoc hw ha ih => exact Walk.cons' (hsym _ _ _ ha) ih
+
+/-- **on undirected graphs distances are symmetric** -/
+theorem C08_symmetric (arcs : Arcs) (hsym : SymmetricArcs arcs) (s t : Nat) (d : Int) :
+    IsDist arcs s t d ↔ IsDist arcs t s d := by
+  constructor
+  · intro h
+    exact ⟨C08_walk_reverse arcs hsym _ _ _ h.1, fun c hw => h.2 c (C08_walk_reverse arcs hsym _ _ _ hw)⟩
+  · intro h
+    exact ⟨C08_walk_reverse arcs hsym _ _ _ h.1, fun c hw => h.2 c (C08_walk_reverse arcs hsym _ _ _ hw)⟩
+
+/-- the arcs read off an undirected abstract graph are symmetric -/
+theorem C08_undirected_arcs_symmetric (a : Abs) (weighted : Bool) : SymmetricArcs (a.arcs false weighted) := by
+  intro u v c h
+  unfold Abs.arcs at h ⊢
+  rw [List.mem_flatMap] at h ⊢
+  obtain ⟨e, he, hm⟩ := h
+  refine ⟨e, he, ?_⟩
+  cases hw : (if weighted = true then e.w else some 1) with
+  | none => simp [hw] at hm
+  | some c' =>
+    simp only [hw, Bool.false_eq_true, if_false, List.mem_cons, Prod.mk.injEq, List.not_mem_nil, or_false] at hm ⊢
+    rcases hm with ⟨a, b, d⟩ | ⟨a, b, d⟩
+    · right; exact ⟨b, a, d⟩
+    · left; exact ⟨b, a, d⟩
+
+/-- `contains_path_through_node`: some returned path has x strictly inside -/
+theorem C08_through_iff (i : SPInfo) (x : Nat) :
+    i.through x = true ↔ ∃ p ∈ i.paths, p.length > 2 ∧ x ∈ (p.drop 1).dropLast := by
+  unfold SPInfo.through
+  simp [List.any_eq_true]
+
 end Graphrs
